@@ -14,15 +14,29 @@ GUARD = ("MC_Positions_f5element.cfg", "ModelObeysRule",
 
 
 def canon(case):
-    return "%s:%s:%s%s" % (case["fam"], case["pos"], ".".join(case["ty"]),
-                           (":" + ",".join(str(x).lower() for x in case["aux"])) if case["aux"] else "")
+    key = "%s:%s:%s%s" % (case["fam"], case["pos"], ".".join(case["ty"]),
+                          (":" + ",".join(str(x).lower() for x in case["aux"])) if case["aux"] else "")
+    if case["fam"] == "pair":
+        key += " after %s:%s" % (case["first"]["pos"], ".".join(case["first"]["ty"]))
+    return key
 
 
 def compare(case, obs):
     if obs.get("panic"):
         return [("crash", "the compiler panicked: %s" % obs["panic"])]
-    codes = set(c for c, _ in obs["diags"])
+    codes = set(d[0] for d in obs["diags"])
     out = []
+    if case["fam"] == "pair" and not obs["ok"]:
+        # two independent declarations: a valid one carries no diagnostic of the family, a faulty one next to a valid
+        # one carries one of its own codes (TLC: RulePair)
+        for k in (1, 2):
+            on_k = set(d[0] for d in obs["diags"] if len(d) > 2 and d[2] == k)
+            if case["clean%d" % k] and on_k & FAMILY:
+                out.append(("code-on-valid-declaration", "declaration %d of the pair is legal, but E%s is located on it" %
+                            (k, sorted(on_k & FAMILY))))
+            if case["must%d" % k] and not on_k & set(case["must%d" % k]):
+                out.append(("wrong-code", "declaration %d of the pair is illegal (one of %s), the other one is legal; "
+                                          "located on it: %s, all diagnostics: %s" % (k, case["must%d" % k], sorted(on_k), obs["diags"])))
     if case["v"] == "A" and not obs["ok"]:
         out.append(("rejected-valid", "the documentation makes this declaration legal, but it is rejected: %s" % obs["diags"]))
     if case["v"] == "R":
@@ -44,10 +58,10 @@ def key_of(case, problem):
 def drift(case, obs):
     if obs.get("panic"):
         return []
-    fam = set(c for c, _ in obs["diags"]) & FAMILY
+    fam = set(d[0] for d in obs["diags"]) & FAMILY
     if case["mok"] and fam:
         return ["the table of the code (as transcribed) accepts, observed %s" % sorted(fam)]
-    if not case["mok"] and case["mcode"] not in set(c for c, _ in obs["diags"]):
+    if not case["mok"] and case["mcode"] not in set(d[0] for d in obs["diags"]):
         return ["the table of the code (as transcribed) gives E%d, observed %s" % (case["mcode"], obs["diags"])]
     return []
 
